@@ -313,7 +313,10 @@ func c07Check(env *h.Env, c *c07Case) error {
 			return fmt.Errorf("%q (id %d) holds %d bytes, %d were sent (err %v)", p, id, len(dt), len(sent), err)
 		}
 	}
-	if errs := convergenceErrs(after, before, tree, 0, func(p string) bool { return o.unchanged[p] && !o.may[p] }); errs.Len() > 0 {
+	for id := range sr.Sent {
+		o.reqPaths = append(o.reqPaths, stats[id].Path)
+	}
+	if errs := convergenceErrs(after, before, tree, 0, o.keepOld(0)); errs.Len() > 0 {
 		return fmt.Errorf("destination differs from what the reference sender announced and sent: %v", errs.Err())
 	}
 	if ov := pair.R.GetOverlaps(); len(ov) > 0 {
